@@ -10,9 +10,10 @@ from ..tlaparse import to_json
 INVS = ['InstalledWhenStarted', 'NoTraceUntouched', 'RestoredExactly', 'ShutdownCompletes', 'QuietAfter']
 
 
-def mc_cfg(ur=False, ab=False, ka=False, so=False, invs=INVS, calls=4, props=('StoppedAfterShutdown',)):
+def mc_cfg(ur=False, ab=False, ka=False, so=False, ad=False, rn=False, ch=False, invs=INVS, calls=4,
+           props=('StoppedAfterShutdown', 'CallerHookUntouched')):
     return dict(constants=dict(NPlugins=2, MaxCalls=calls, UnconditionalRestore=ur, AbortOnFailure=ab, KeepsActing=ka,
-                               SaveOnce=so),
+                               SaveOnce=so, AcceptsDuringDrain=ad, RestoreNeedsOwnThread=rn, ClobbersCallerHook=ch),
                 invariants=invs, properties=list(props), deadlock=False)
 
 
@@ -20,16 +21,18 @@ def api_calls(walk):
     """Collapse a spec walk into API calls with the spec state expected after each (at idle points)."""
     calls = []
     pending = None
+    flags = (False, False)
     for (a, args, st) in walk[1:]:
         if a == 'Start':
             calls.append(('start', None, st))
         elif a == 'ShutdownBegin':
             if st['sdpc'] == 0:
-                calls.append(('shutdown', set(), st))
+                calls.append(('shutdown', (set(), (False, False)), st))
             else:
-                pending = set(int(x) for x in args[0])
+                pending = set(int(x) for x in to_json(st['failing']))
+                flags = (bool(st['latePoll']), bool(st['otherThread']))
         elif a == 'ShutdownMark' or (a == 'ShutdownStep' and st['sdpc'] == 0):
-            calls.append(('shutdown', pending or set(), st))
+            calls.append(('shutdown', (pending or set(), flags), st))
             pending = None
         elif a == 'HostEventAfter':
             calls.append(('host_event', None, st))
@@ -54,7 +57,11 @@ def replay_walk(c, walk, wd, exc):
             go = threading.Event()
             acted = {}
             for name, failing, st in calls:
-                steps.append([name, sorted(failing) if failing else None])
+                late_poll = other_thread = False
+                if name == 'shutdown':
+                    failing, (late_poll, other_thread) = failing
+                steps.append([name, (sorted(failing) if failing else None) if name != 'shutdown' else
+                              [sorted(failing), 'late-poll' if late_poll else '', 'other-thread' if other_thread else '']])
                 if name == 'start':
                     was = sysm.deep.started
                     sysm.start()
@@ -79,7 +86,7 @@ def replay_walk(c, walk, wd, exc):
                     sysm.app_changes_hooks(*failing)
                     steps[-1][1] = list(failing)
                 elif name == 'shutdown':
-                    err = sysm.shutdown(failing)
+                    err = sysm.shutdown(failing, late_poll=late_poll, other_thread=other_thread)
                     if err:
                         problems.append('shutdown raised %s' % err)
                 elif name == 'host_event':
@@ -95,6 +102,9 @@ def replay_walk(c, walk, wd, exc):
                 real = sysm.project()
                 exp = {'sysTrace': st['sysTrace'], 'thrTrace': st['thrTrace'], 'started': st['started'],
                        'pollAlive': st['pollAlive']}
+                if st['otherThread']:
+                    del exp['sysTrace']      # (the starting thread's own hook cannot be set from another thread)
+                exp['otherHook'] = st['otherHook']
                 got = {k: real[k] for k in exp}
                 if got != exp:
                     problems.append('after %s: implementation %s, spec %s' % (steps[-1], got, exp))
@@ -138,10 +148,13 @@ def run(c):
                      'GRPCService.start is replaced by a fake channel']
     r = c.mc('Lifecycle', mc_cfg(), label='2 plugins, 4 calls', dump=True,
              must_cover=['Start', 'ShutdownBegin', 'ShutdownStep', 'ShutdownMark'])
-    for kw, inv in ((dict(ur=True), 'NoTraceUntouched'), (dict(ka=True), 'QuietAfter'), (dict(so=True), 'RestoredExactly')):
+    for kw, inv in ((dict(ur=True), 'NoTraceUntouched'), (dict(ka=True), 'QuietAfter'), (dict(so=True), 'RestoredExactly'),
+                    (dict(ad=True), 'QuietAfter'), (dict(rn=True), 'RestoredExactly')):
         c.mc_expect_violation('Lifecycle', mc_cfg(invs=[inv], props=(), **kw), 'deviation %s' % list(kw)[0], what=inv)
     c.mc_expect_violation('Lifecycle', mc_cfg(invs=[], ab=True), 'deviation AbortOnFailure',
                           what='StoppedAfterShutdown')
+    c.mc_expect_violation('Lifecycle', mc_cfg(invs=[], ch=True), 'deviation ClobbersCallerHook',
+                          what='CallerHookUntouched')
     n = 0
     shown = 0
     # histories that are always replayed: the application installs hooks while the agent runs with tracing disabled;
@@ -157,6 +170,14 @@ def run(c):
             curated += ws[:2]
             only2 = [w for w in ws if max([len(x[2]['failing']) for x in w]) == 1 and any(2 in x[2]['failing'] for x in w)]
             curated += only2[:1]
+    # a configuration arriving while shutdown drains; shutdown called from another thread than start
+    ws = core.walks_matching(r.graph, ['Start'] + full + ['HostEventAfter'],
+                             init_filter=lambda st: not st['noTrace'] and st['preThr'] != 'None', limit=20000)
+    for flag in ('latePoll', 'otherThread'):
+        hit = [w for w in ws if any(x[2][flag] for x in w) and not any(x[2]['otherThread' if flag == 'latePoll' else 'latePoll'] for x in w)]
+        # (with the service failing the late poll gets no answer: prefer the walk in which only the deliveries fail)
+        hit.sort(key=lambda w: max(len(x[2]['failing']) for x in w))
+        curated += hit[:1]
     # a second life of the agent after the application replaced / removed its hooks in between
     short = ['ShutdownBegin'] + ['ShutdownStep'] * 5 + ['ShutdownMark']
     ws = core.walks_matching(r.graph, ['Start'] + short + ['AppChangesHooks', 'Start'] + short,
